@@ -26,6 +26,15 @@ class Impl:
                                   env=impl_env(self.scratch, self.threads, self.extra_env), bufsize=0)
         self.buf = b''
 
+    def _cpu(self):
+        """CPU seconds (user + system, all threads) consumed so far by the worker process."""
+        try:
+            with open('/proc/%d/stat' % self.p.pid) as f:
+                fields = f.read().rsplit(')', 1)[1].split()
+            return (int(fields[11]) + int(fields[12])) / float(os.sysconf('SC_CLK_TCK'))
+        except (OSError, IndexError, ValueError, AttributeError):
+            return 0.0
+
     def close(self):
         if self.p is not None:
             try:
@@ -50,10 +59,20 @@ class Impl:
             return {'crash': rc}
         fd = self.p.stdout.fileno()
         import time
-        deadline = time.time() + timeout
+        t0 = time.time()
+        cpu0 = self._cpu()
+        deadline = t0 + timeout
         while b'\n' not in self.buf:
             left = deadline - time.time()
             if left <= 0:
+                # A hang is decided on the CPU time the worker actually received, not on wall time alone: on a loaded
+                # machine (twenty checks and their Coq builds side by side) a call that was merely starved must not be
+                # reported as non-termination.  Wall time is still capped (15 x the budget).
+                used = self._cpu() - cpu0
+                if used < 0.7 * timeout and time.time() - t0 < 15 * timeout:
+                    deadline = time.time() + max(1.0, 0.7 * timeout - used)
+                    self.starved = getattr(self, 'starved', 0) + 1
+                    continue
                 self.hangs += 1
                 self.close()
                 return {'hang': True}
